@@ -103,7 +103,7 @@ theorem readback_utc_core (y m d : Int) (f : ℚ) (h : Valid y m d) (hy1 : 1972 
     intro M D; simp only [doyI, c1582, if_true]
   obtain ⟨hy0, hm1, hm12, hd1, hdl, hgap⟩ := id h
   have hdq1 : (1 : ℚ) ≤ (d : ℚ) := by exact_mod_cast hd1
-  rw [compute_jde_frac y m d f hf0 hf1]
+  rw [compute_jde_frac y m d f hf0 hf1 h]
   by_cases hA : f + ttMinusUtc y m / 86400 < 1
   · -- the TT instant is on the same civil day
     have hF0 : 0 ≤ f + ttMinusUtc y m / 86400 := by linarith
@@ -230,7 +230,7 @@ theorem readback_override_core (y m d : Int) (f L : ℚ) (u : Option Bool) (h : 
     intro M D; simp only [doyI, c1582, if_true]
   obtain ⟨hy0, hm1, hm12, hd1, hdl, hgap⟩ := id h
   have hdq1 : (1 : ℚ) ≤ (d : ℚ) := by exact_mod_cast hd1
-  rw [compute_jde_frac y m d f hf0 hf1]
+  rw [compute_jde_frac y m d f hf0 hf1 h]
   by_cases hA : f + (32.184 + 10 + L) / 86400 < 1
   · -- the TT instant is on the same civil day
     have hF0 : 0 ≤ f + (32.184 + 10 + L) / 86400 := by linarith
